@@ -1357,8 +1357,14 @@ impl SymbolTable {
         } else {
             trace!("symbol_table: {}not found '{}'", context.indent(), path);
 
+            // The root scope has no name (e.g. an empty path after a `$sv`
+            // prefix): fall back to the path itself instead of unwrapping.
             let cause = ResolveErrorCause::NotFound(
-                scope::name_path(context.scope).last().copied().unwrap(),
+                scope::name_path(context.scope)
+                    .last()
+                    .copied()
+                    .or_else(|| path.as_slice().last().copied())
+                    .unwrap_or_default(),
             );
             Err(ResolveError::new(context.last_found, cause))
         }
